@@ -59,6 +59,24 @@ def fromClap (connect read write retries : Option Bytes) : Res Timeout := do
 def fromSerde (connect read write : Option Duration) (retries : Nat) : Res Timeout :=
   new read write connect retries
 
+/-- `get_read_and_write_or_defaults`: the READ and the WRITE duration, in that order -/
+def readAndWriteOrDefaults (t : Option Timeout) : Option Duration × Option Duration :=
+  match t with
+  | some t => (t.read, t.write)
+  | none => (default.read, default.write)
+
+/-- `get_connect_or_default` -/
+def connectOrDefault (t : Option Timeout) : Option Duration :=
+  match t with
+  | some t => t.connect
+  | none => default.connect
+
+/-- `get_retries_or_default` -/
+def retriesOrDefault (t : Option Timeout) : Nat :=
+  match t with
+  | some t => t.retries
+  | none => default.retries
+
 /-- `apply_timeout`: `set_read_timeout(read).unwrap(); set_write_timeout(write).unwrap()` -/
 def applyTimeout (t : Option Timeout) : Res Unit :=
   let t := t.getD default
